@@ -172,6 +172,11 @@ type c06E2E struct {
 	parseFails  int
 	histSamples int
 	refSamples  int
+
+	connRMs     map[string]*RegistrationManager
+	connStats   *c06ConnStats
+	connectsOK  int
+	connSamples int
 }
 
 type c06SyncBuf struct {
@@ -622,6 +627,47 @@ func TestVerifC06EndToEnd(t *testing.T) {
 		rec.Exhaustive(fmt.Sprintf("refused class: every kind (%d) × policy modes %v, 3 times", len(c06RefusedKinds), rmodes))
 		for i := kit.Tier(0, 3000); i > 0; i-- {
 			one(c06RefusedKinds[rrng.Intn(len(c06RefusedKinds))], rmodes[rrng.Intn(len(rmodes))], sources[rrng.Intn(len(sources))], rrng.Intn(4) == 0)
+		}
+	}
+
+	// "connecting" class: registrations on connecting transports, whose sessions ingest itself hands to
+	// Proxy (zz_verif_c06_connecting_test.go)
+	{
+		e.connStats = &c06ConnStats{}
+		e.connRMs = map[string]*RegistrationManager{}
+		for m, p := range e.pols {
+			e.connRMs[m] = e.newConnRM(p)
+		}
+		crng := kit.Rand("c06/e2e/connecting")
+		tps := []pb.TransportType{c06MockTp, pb.TransportType_DTLS}
+		cn := 0
+		one := func(class, variant, mode string, tp pb.TransportType, src pb.RegistrationSource, dual bool) {
+			b := make([]byte, 32)
+			crng.Read(b)
+			e.runConnecting(class, variant, mode, tp, src, dual, b)
+			cn++
+		}
+		for _, class := range c06ConnCoverts {
+			for _, variant := range c06ConnVariants {
+				for _, mode := range modes {
+					for _, tp := range tps {
+						one(class, variant, mode, tp, sources[cn%len(sources)], cn%5 == 4)
+					}
+				}
+			}
+		}
+		rec.Exhaustive(fmt.Sprintf("connecting class: every covert class (%d) × ordering variant (%d) × policy mode (%d) × transport (mock, real DTLS)", len(c06ConnCoverts), len(c06ConnVariants), len(modes)))
+		for i := kit.Tier(0, 4000); i > 0; i-- {
+			one(c06ConnCoverts[crng.Intn(len(c06ConnCoverts))], c06ConnVariants[crng.Intn(len(c06ConnVariants))], modes[crng.Intn(len(modes))], tps[crng.Intn(2)],
+				sources[crng.Intn(len(sources))], crng.Intn(4) == 0)
+		}
+		rec.Count("connecting_stats_created", int(e.connStats.created.Load()))
+		rec.Count("connecting_stats_proxied_and_closed", int(e.connStats.discarded.Load()))
+		rec.Count("connecting_stats_failed", int(e.connStats.otherFail.Load()+e.connStats.timeout.Load()))
+		if e.connectsOK == 0 {
+			rec.Inconclusive("connecting class: no Connect ever succeeded, the path from ingest to Proxy was not exercised", nil)
+			rec.Close()
+			t.Fatal("connecting class observed nothing: no Connect of a connecting transport ever succeeded")
 		}
 	}
 
